@@ -358,6 +358,18 @@ static void sc_res_gzip_multi_prep(void) {
     fd_op('c', NULL, 0);
 }
 
+/* an LZMA-coded response (LZMA-alone format, 64 KiB dictionary): the SDK's allocator callback SzAlloc is an allocation site of its own */
+static const unsigned char fd_lzma_body[] = {0x5d,0x00,0x00,0x01,0x00,0xff,0xff,0xff,0xff,0xff,0xff,0xff,0xff,0x00,0x1e,0x1a,0x0a,0x86,0xef,0x4a,0xd7,0x19,0x25,0x19,0x70,0xac,0x7b,0x55,0xe4,0xcd,0xf8,0x48,0xd2,0x26,0xd0,0xe3,0xee,0x52,0x72,0x93,0x2b,0xbb,0xf0,0x7e,0x4c,0x81,0x98,0x8d,0x2d,0x0e,0x78,0xbc,0x6f,0xff,0xff,0x93,0xed,0x00,0x00};
+static char fd_lzma_res[1024];
+static void sc_res_lzma_prep(void) {
+    fd_sc_reset(); fd_sc.decompress = 1; fd_sc.chunk = 37;
+    size_t o = snprintf(fd_lzma_res, sizeof fd_lzma_res, "HTTP/1.1 200 OK\r\nContent-Encoding: lzma\r\nContent-Length: %zu\r\n\r\n", sizeof fd_lzma_body);
+    memcpy(fd_lzma_res + o, fd_lzma_body, sizeof fd_lzma_body);
+    Q("GET /lz HTTP/1.1\r\nHost: h\r\n\r\n");
+    fd_op('S', fd_lzma_res, o + sizeof fd_lzma_body);
+    fd_op('c', NULL, 0);
+}
+
 /* header blocks that take the less common branches of REQ_HEADERS / RES_HEADERS: a pending header followed by a continuation line that carries its own
    colon (taken as invalid folding: the pending header is replaced), folded lines appended to a pending header, repeated names merged, an empty header
    name, a header line without colon, LF-only line ends */
@@ -633,6 +645,7 @@ static fd_scenario_t fd_scenarios[] = {
     { "res_gzip", sc_res_gzip_prep, fd_run_script },
     { "res_gzip_multi", sc_res_gzip_multi_prep, fd_run_script },
     { "odd_headers", sc_odd_headers_prep, fd_run_script },
+    { "res_lzma", sc_res_lzma_prep, fd_run_script },
     { "pipeline_auto", sc_pipeline_auto_prep, fd_run_script },
     { "pipeline_manual", sc_pipeline_manual_prep, fd_run_script },
     { "many_tx", sc_many_tx_prep, fd_run_script },
